@@ -225,6 +225,12 @@ func (d *seqRun) pickUpd(coll string, bulkFunc bool) *Upd {
 		u.Name = "to_nil"
 		return u
 	}
+	if d.r.P(3) {
+		// an update that changes nothing: an empty (or nil) map, an updater returning its argument as it is
+		u.Name = "no_change"
+		u.NilMap = d.r.Bool()
+		return u
+	}
 	nset := d.r.Range(1, 2)
 	fields := append([]string(nil), sch.Fields...)
 	if mc := d.coll(coll); mc != nil && len(mc.Indexes) > 0 && d.r.P(60) {
